@@ -139,6 +139,14 @@ func hashInputs() (string, error) {
 		}
 	}
 	fmt.Fprintf(h, "go=%s", goRoot)
+	// the instrumenter is compiled into this driver: a driver built from other
+	// sources must not reuse (or leave behind) a binary under the same key
+	if exe, err := os.Executable(); err == nil {
+		if b, err := os.ReadFile(exe); err == nil {
+			eh := sha256.Sum256(b)
+			fmt.Fprintf(h, "driver=%x", eh[:])
+		}
+	}
 	return hex.EncodeToString(h.Sum(nil))[:24], nil
 }
 
